@@ -24,6 +24,11 @@ type poolEntry struct {
 	Ver   int    `json:"cvss_version"`
 	Level int    `json:"decoder_level"`
 	Input string `json:"input"`
+	// Assign: exported fields assigned on the shared object after its Decode and before any
+	// goroutine starts (the object is then only read). FieldBuilt: the shared object is a
+	// constructor result with every field assigned, never decoded.
+	Assign     []op `json:"assigned_before_sharing,omitempty"`
+	FieldBuilt bool `json:"field_built,omitempty"`
 }
 
 type wop struct {
@@ -187,10 +192,24 @@ var checkC16 = register("C16/workload", func(w workload) string {
 	shared := make([]*subject, len(w.Pool))
 	if !w.NoShared {
 		for i, e := range w.Pool {
-			if s, err := decodeEntry(e); err == nil {
-				s := s
-				shared[i] = &s
+			var s subject
+			var err error
+			if e.FieldBuilt {
+				var ok bool
+				s, ok = makeSubjectFieldBuilt(opsCase{Ver: e.Ver, Level: ((e.Level % 3) + 3) % 3, Input: e.Input})
+				if !ok {
+					continue
+				}
+			} else if s, err = decodeEntry(e); err != nil {
+				continue
 			}
+			for _, as := range e.Assign {
+				if val, ok := fieldValue(e.Ver, as.Field, as.Index); ok {
+					s.setField(as.Field, val)
+				}
+			}
+			sp := s
+			shared[i] = &sp
 		}
 	}
 	procs := w.Procs
@@ -282,6 +301,12 @@ func storm(kind int) workload {
 		{Ver: 2, Level: 2, Input: "AV:N/AC:L/Au:N/C:P/I:P/A:C/RC:C/RL:U/E:H"},
 		{Ver: 2, Level: 0, Input: "AV:N/AC:L/Au:N/C:P/I:P/ZZ:1"},
 	}}
+	if kind == 1 { // the query storm meets objects whose fields were assigned after / instead of Decode
+		w.Pool[0].Assign = []op{{Kind: "set", Field: "AV", Index: 2}, {Kind: "set", Field: "MS", Index: 1}, {Kind: "set", Field: "E", Index: 1}}
+		w.Pool[1].Assign = []op{{Kind: "set", Field: "AC", Index: 0}, {Kind: "set", Field: "CDP", Index: 2}}
+		w.Pool[2].FieldBuilt = true
+		w.Pool[3].Assign = []op{{Kind: "set", Field: "RL", Index: 2}}
+	}
 	tpls := c16Templates
 	for g := 0; g < 16; g++ {
 		var ops []wop
@@ -324,7 +349,7 @@ func trunc(s string) string {
 func TestC16(t *testing.T) {
 	c := begin(t, "C16")
 	defer c.end()
-	c.rec.F.Rule = "rapid workloads: a pool of 1-6 vectors (valid and invalid, both versions, all decoder levels), 2-16 goroutines with up to 50 operations each — decode a pool vector into an own object and observe it completely, query a shared already-decoded object (Score, Severity, GetError, Encode, String at the top and base views), build a localised report from a shared object, export it with a template — released together on a barrier under GOMAXPROCS in {2, 4, 16} with generated runtime.Gosched() points. Oracle: the race detector's log must not grow during the workload (binary built with -race), and every operation's result must equal the result of the same operation executed sequentially beforehand. Non-trivial = at least two goroutines query the same shared object and at least one exports a report concurrently; distinct by hash of the workload."
+	c.rec.F.Rule = "rapid workloads: a pool of 1-6 vectors (valid and invalid, both versions, all decoder levels), 2-16 goroutines with up to 50 operations each — decode a pool vector into an own object and observe it completely, query a shared object — decoded, decoded and then assigned fields, or built by field assignment alone; only read once the goroutines run — (Score, Severity, GetError, Encode, String at the top and base views), build a localised report from a shared object, export it with a template — released together on a barrier under GOMAXPROCS in {2, 4, 16} with generated runtime.Gosched() points. Oracle: the race detector's log must not grow during the workload (binary built with -race), and every operation's result must equal the result of the same operation executed sequentially beforehand. Non-trivial = at least two goroutines query the same shared object and at least one exports a report concurrently; distinct by hash of the workload."
 	c.rec.F.Assumptions = []string{"schedules are sampled, not enumerated; the race detector reports happens-before races whenever both accesses execute, independent of the observed order", "race reports are detected through the race runtime's log file (GORACE log_path)"}
 	if os.Getenv("VERIF_RACE_LOG") == "" {
 		c.rec.SetExtra("warning", "VERIF_RACE_LOG not set: race reports are only visible through the test binary's exit status")
@@ -351,7 +376,18 @@ func TestC16(t *testing.T) {
 				s, _ := gen.Mutated(rt, ver)
 				w.Pool = append(w.Pool, poolEntry{Ver: ver, Level: int(lv), Input: s})
 			} else {
-				w.Pool = append(w.Pool, poolEntry{Ver: ver, Level: int(lv), Input: gen.Valid(ver, lv).Draw(rt, "vec").String()})
+				pe := poolEntry{Ver: ver, Level: int(lv), Input: gen.Valid(ver, lv).Draw(rt, "vec").String()}
+				switch rapid.IntRange(0, 5).Draw(rt, "sharedkind") {
+				case 0:
+					pe.FieldBuilt = true
+				case 1, 2:
+					for _, fl := range fieldsOf(ver, lv) {
+						if rapid.IntRange(0, 5).Draw(rt, "assign") == 0 {
+							pe.Assign = append(pe.Assign, op{Kind: "set", Field: fl[0].(string), Index: rapid.IntRange(0, 1).Draw(rt, "aidx")})
+						}
+					}
+				}
+				w.Pool = append(w.Pool, pe)
 			}
 		}
 		ng := rapid.IntRange(2, 16).Draw(rt, "goroutines")
